@@ -296,7 +296,17 @@ of *any* element of `net` to the receiver (any order, any number of times; never
 acknowledgement, then `process_reliable`; `handle_reliable_path`) — or the injection of ANY packet whose signature is not the
 one the receiver expects of it (`inject`: forged with other keys, altered in flight, of any type and flags; by C04's signature
 gate it changes nothing). So `C01_system_safety` is safety in the presence of an active attacker who cannot produce the
-expected signatures (HMAC assumption, C04). `Good` = the coupling `Cpl` with an L2 channel state + the channel invariants.
+expected signatures (HMAC assumption, C04).
+
+**For each direction and substream.** An endpoint is at once the sender of one direction and the receiver of the other, on
+several substreams. The system's steps therefore also include everything the endpoints do that is NOT part of the channel under
+study: the sender endpoint sending on other substreams (`aSendOther`) and receiving the other direction's data through its
+whole receive path (`aRecv`, any substream), the receiver endpoint sending data of its own on any substream (`bSend`), its
+keep-alive (`bPing`) and the acknowledgements it is handed (`bAckIn`), acknowledgements of any kind at the sender (`ackIn`).
+`NxProofs/Roles.lean` shows each of them to be a frame step for the role the channel uses (`SendFr`: counter, key, encryption
+position, fragment size; `RecvFr`: windows, queues, fragment buffers, EOF, link, key, decryption position), so they change
+nothing in the coupling: the end-to-end theorems hold with arbitrary traffic of the other direction and of other substreams
+interleaved — and, applied with the roles exchanged, for the other direction at the same time. `Good` = the coupling `Cpl` with an L2 channel state + the channel invariants.
 Hypotheses of a run (`Sys.runOk`, decidable, checked step by step): a `send` is refused at once (closed connection, invalid
 substream) or runs to its end on a live link — an exception out of the transport in the middle of a message is excluded
 (it leaves a hole in the id sequence; the application saw the exception); a delivered copy is within half the id space of
@@ -405,8 +415,26 @@ theorem acks_touch_timers_only (env : Env) (now : Time) (c : Conn) (p : Packet) 
     (hns : p.type ≠ TYPE_SYN) (hnc : p.type ≠ TYPE_CONNECT) : AckFr c (c.handle env now p).c :=
   handle_ack_frame env now c p hack hns hnc
 
+open Nx.L1 Nx.Prudp in
+/-- **receiving does not disturb sending** (any substream): an ordinary reliable packet through the whole receive path leaves
+    the sequence counter, key, encryption position and fragment size of every substream's sender role as they were -/
+theorem receiving_does_not_disturb_sending (env : Env) (now : Time) (c : Conn) (p : Packet) (sub : Nat) (ho : Ordinary p) :
+    SendFr c (c.handle env now p).c sub := handle_ordinary_sendFr env now c p sub ho
+
+open Nx.L1 Nx.Prudp in
+/-- **sending does not disturb receiving** (any substream, live link): windows, queues, fragment buffers, EOF flag, state, key
+    and decryption position of every substream's receiver role are what they were after a `send` on any substream -/
+theorem sending_does_not_disturb_receiving (env : Env) (now : Time) (c : Conn) (data : Bytes) (s sub : Nat) (hl : c.linkUp = true) :
+    RecvFr c (c.send env now data s).c sub := send_recvFr env now c data s sub hl
+
+open Nx.L1 Nx.Prudp in
+/-- **substreams are independent on the sender side**: a `send` on another substream leaves this one's sender role untouched -/
+theorem other_substreams_do_not_disturb (env : Env) (now : Time) (c : Conn) (data : Bytes) (s sub : Nat) (hne : s ≠ sub) :
+    SendFr c (c.send env now data s).c sub := send_other_sendFr env now c data s sub hne
+
 /-! non-vacuity of the system theorems: a run with a two-fragment message, reordering, duplication (one copy through the whole
-    receive path), a forged DISCONNECT, an acknowledgement and an aggregate acknowledgement arriving at the sender, a refused `send`, then a
+    receive path), a forged DISCONNECT, data of the other direction sent by the receiver endpoint and received by the sender endpoint, acknowledgements and an
+    aggregate acknowledgement arriving at either end, a keep-alive of the receiver endpoint, a refused `send`, then a
     three-fragment message sent fragment by fragment with a keep-alive ping between its fragments (and a second `send` that
     finds the lock taken), then a graceful `disconnect()`, a refused `send` after it and the DISCONNECT delivered through `handle`
     meets `Sys.runOk`; the receiver ends up at end-of-stream with exactly the accepted messages (stream transport here, i.e. no RC4, only so
@@ -420,7 +448,9 @@ example :
     let forged : Packet := { type := TYPE_DISCONNECT, flags := 6, packetId := 1, sessionId := 3, signature := some [99] }
     let ack : Packet := { type := TYPE_DATA, flags := FLAG_ACK, packetId := 1, sessionId := 6, signature := some [1] }
     let aggr : Packet := { type := TYPE_DATA, flags := FLAG_ACK + FLAG_MULTI_ACK, packetId := 2, substreamId := 1, payload := [0, 0, 2, 0], signature := some [2] }
-    let ops := [SysOp.send 0 [1, 2, 3], .deliver 1, .inject 1 forged, .ackIn 1 ack, .deliverH 2 1, .deliverH 3 0, .ackIn 4 aggr, .send 5 [], .deliver 7,
+    let back : Packet := { type := TYPE_DATA, flags := 14, packetId := 1, sessionId := 6, payload := [42], signature := some [1] }
+    let ops := [SysOp.send 0 [1, 2, 3], .deliver 1, .bSend 1 [7, 7, 7] 0, .aRecv 1 back, .inject 1 forged, .ackIn 1 ack, .deliverH 2 1, .bPing 2,
+                .deliverH 3 0, .ackIn 4 aggr, .bAckIn 4 ack, .send 5 [], .deliver 7,
                 .begin 6 [4, 5, 6, 7, 8], .frag 6, .ping 7, .send 7 [9], .frag 8, .frag 9, .deliver 5, .deliver 3, .deliver 4, .deliver 2,
                 .disconnect 10, .send 11 [10], .deliverH 12 6]
     Sys.runOk env 0 (Sys.fresh a b) ops = true ∧
